@@ -39,6 +39,7 @@ VERIF = os.path.dirname(os.path.dirname(os.path.abspath(__file__)))
 REPO = os.environ.get('VERIF_REPO', '/repo')
 PY = os.path.join(VERIF, '.venv', 'bin', 'python')
 NPROC = int(os.environ.get('VERIF_NPROC', '16'))
+OUT = os.environ.get('VERIF_OUT') or VERIF     # where evidence/ and replays/ are written (mutant runs use a scratch dir)
 
 WRAPPER = '''\
 import {hmod} as H
@@ -311,7 +312,7 @@ def check_property(prop, tier='quick', only=None, verbose=True):
             pairs.setdefault(j['pair'], []).append((j['hashseed'], r.get('summ_digest'), r.get('n_summaries')))
     for pid, lst in sorted(pairs.items()):
         if len({d for _s, d, _n in lst}) > 1:
-            rp = os.path.join(VERIF, 'replays', '%s-seedpair-%s.json' % (prop, pid))
+            rp = os.path.join(OUT, 'replays', '%s-seedpair-%s.json' % (prop, pid))
             os.makedirs(os.path.dirname(rp), exist_ok=True)
             json.dump({'property': prop, 'kind': 'seedpair', 'pair': pid, 'seen': lst,
                        'note': 'the set of (input, observed result) summaries of this slice differs between PYTHONHASHSEED values; '
@@ -392,8 +393,8 @@ def check_property(prop, tier='quick', only=None, verbose=True):
             ev['coverage'].update(extra(tier) or {})
         except Exception as e:  # noqa
             errors.append('extra_evidence failed: %r' % e)
-    os.makedirs(os.path.join(VERIF, 'evidence'), exist_ok=True)
-    json.dump(ev, open(os.path.join(VERIF, 'evidence', prop + '.json'), 'w'), indent=1, default=str)
+    os.makedirs(os.path.join(OUT, 'evidence'), exist_ok=True)
+    json.dump(ev, open(os.path.join(OUT, 'evidence', prop + '.json'), 'w'), indent=1, default=str)
 
     for ln in kf_lines:
         print(ln)
@@ -418,12 +419,12 @@ def check_property(prop, tier='quick', only=None, verbose=True):
 
 
 def write_replay(prop, hmodname, h, vec, call_args, nat, message):
-    os.makedirs(os.path.join(VERIF, 'replays'), exist_ok=True)
+    os.makedirs(os.path.join(OUT, 'replays'), exist_ok=True)
     body = {'property': prop, 'module': hmodname, 'fn': h['fn'], 'harness': h['name'],
             'args': vec, 'call_args': call_args, 'crosshair_message': message[:1000],
             'native': nat}
     hsh = hashlib.sha256(json.dumps([h['name'], vec], sort_keys=True, default=str).encode()).hexdigest()[:10]
-    p = os.path.join(VERIF, 'replays', '%s-%s.json' % (prop, hsh))
+    p = os.path.join(OUT, 'replays', '%s-%s.json' % (prop, hsh))
     json.dump(body, open(p, 'w'), indent=1, default=str)
     return p
 
